@@ -115,4 +115,11 @@ theorem depth_budget_never_changes_a_skip (env : Env) (n m : Nat) (w : Ty) (s : 
     deIgnored env n w s = .err .limit ∨ deIgnored env m w s = .err .limit ∨ deIgnored env n w s = deIgnored env m w s :=
   (de_fuel_agree env n m).2.1 w s
 
+open Candid.De in
+/-- **a run that was not stopped by the depth budget gives the same answer at every larger budget** (monotonicity:
+raising the budget never starves a run that completed, and never changes what it returned) -/
+theorem answer_is_stable_under_more_depth (env : Env) (vis : Visitor) (w e : Ty) (s : St) (n : Nat)
+    (hr : deAny env vis n w e s ≠ .err .limit) (d : Nat) : deAny env vis (n + d) w e s = deAny env vis n w e s :=
+  deAny_stable env vis w e s n _ rfl hr d
+
 end Candid.Props.C06
